@@ -1015,6 +1015,50 @@ impl Machine {
                 #[cfg(not(feature = "std"))]
                 out.s("unsupported");
             }
+            (b"writefmtx", 5) => {
+                // `write!` with argument kinds other than a plain `&str`: chars one by one, a non-ASCII fill character,
+                // integers and a padded char, a char followed by a str
+                let h = handle!(1);
+                let Some(mode) = parse_dec(toks[2]) else { bad!() };
+                let Some(len) = unhex(toks[3], scratch) else { bad!() };
+                let Some(s) = &mut self.hs[h] else {
+                    out.s("nohandle");
+                    return;
+                };
+                #[cfg(feature = "std")]
+                {
+                    let Ok(st) = core::str::from_utf8(&scratch[..len]) else { bad!() };
+                    let mut ok = true;
+                    match mode {
+                        0 => {
+                            for c in st.chars() {
+                                let r = each_t!(s, out, x => std::io::Write::write_fmt(x, format_args!("{}", c)));
+                                ok &= r.is_ok();
+                            }
+                        }
+                        1 => {
+                            let r = each_t!(s, out, x => std::io::Write::write_fmt(x, format_args!("{:é>8}", st)));
+                            ok &= r.is_ok();
+                        }
+                        2 => {
+                            let n = st.chars().count();
+                            let r = each_t!(s, out, x => std::io::Write::write_fmt(x, format_args!("{:·<5}|{}|{:>4}", st, n, 'ß')));
+                            ok &= r.is_ok();
+                        }
+                        3 => {
+                            let mut it = st.chars();
+                            let c0 = it.next().unwrap_or('ÿ');
+                            let rest = it.as_str();
+                            let r = each_t!(s, out, x => std::io::Write::write_fmt(x, format_args!("{}{}", c0, rest)));
+                            ok &= r.is_ok();
+                        }
+                        _ => bad!(),
+                    }
+                    out.s(if ok { "ok" } else { "err" });
+                }
+                #[cfg(not(feature = "std"))]
+                out.s("unsupported");
+            }
             (b"writefmt", 3) => {
                 // `write!(hasher, "{}", s)` through `io::Write::write_fmt`
                 let h = handle!(1);
